@@ -74,6 +74,9 @@ def cases(tier, seed):
                     # a source tape recorded with gaps between blocks (gap flag $FF in its name-file blocks)
                     for tkind in ("cas", "dsk"):
                         yield {"k": "conv", "skind": "cas", "files": fset, "tkind": tkind, "sel": None, "mode": None, "absent": False, "gaps": 3}
+                        # a source tape whose data blocks are shorter than 255 bytes (legal: any block may carry 1..255 bytes)
+                        for chunk in (128, 7):
+                            yield {"k": "conv", "skind": "cas", "files": fset, "tkind": tkind, "sel": None, "mode": None, "absent": False, "chunk": chunk}
             if len(fset) in (1, 2):
                 yield {"k": "bin", "skind": skind, "files": fset, "sel": None}
                 yield {"k": "bin", "skind": skind, "files": fset, "sel": [fset[0]]}
@@ -82,11 +85,11 @@ def cases(tier, seed):
 HOLE_SLOTS = [1, 3, 4, 7, 9]
 
 
-def write_source(path, kind, fset, gaps=None, holes=False):
+def write_source(path, kind, fset, gaps=None, holes=False, chunk=255):
     specs = [FILES[i] for i in fset]
     if kind == "cas":
         b = tape.write([dict(name=s["name"], type=s["type"], dtype=s["dtype"], load=s["load"], exec=s["exec"], data=C.pattern(s["n"], s["pat"])) for s in specs],
-                       gap=gaps)
+                       gap=gaps, chunk=chunk)
     else:
         fl = []
         g = 33
@@ -139,7 +142,7 @@ def check_case(case):
     names = ",".join(FILES[i]["name"] for i in case["files"]) or "none"
     if case["k"] == "conv":
         sel = "all" if case["sel"] is None else (",".join(FILES[i]["name"] for i in case["sel"]) + ("+absent" if case["absent"] else "")) or "absent-only"
-        cell = "conv|{}{}>{}|{}|sel={}|{}".format(case["skind"], ".gaps" if case.get("gaps") else ".holes" if case.get("holes") else "", case["tkind"], names, sel, case["mode"] or "-")
+        cell = "conv|{}{}>{}|{}|sel={}|{}".format(case["skind"], ".gaps" if case.get("gaps") else ".holes" if case.get("holes") else ".chunk{}".format(case["chunk"]) if case.get("chunk") else "", case["tkind"], names, sel, case["mode"] or "-")
     elif case["k"] == "chain":
         cell = "chain|{}|{}".format(case["skind"], names)
     else:
@@ -153,7 +156,7 @@ def check_case(case):
     try:
         os.chdir(td)
         src = "src." + case["skind"]
-        specs = write_source(src, case["skind"], case["files"], case.get("gaps"), case.get("holes", False))
+        specs = write_source(src, case["skind"], case["files"], case.get("gaps"), case.get("holes", False), case.get("chunk", 255))
         if case["k"] == "conv":
             tgt = "tgt." + case["tkind"]
             files_arg = None
@@ -220,7 +223,7 @@ def describe(tier):
     return {
         "alphabet": "source images written by the independent writers (cassette and disk) holding every subset of size <= 2 (" +
                     ("and every subset of size 3" if tier == "thorough" else "4 subsets of size 3") + ") of {} plus two reordered sets and four sets on which one name occurs twice; target kind cas/dsk; "
-                    "disk sources on descending and track-17-crossing chains, and with KILLed / never-used directory entries before and between the files; cassette sources recorded with gaps (gap flag $FF); "
+                    "disk sources on descending and track-17-crossing chains, and with KILLed / never-used directory entries before and between the files; cassette sources recorded with gaps (gap flag $FF) and with 128- and 7-byte data blocks; "
                     "--files = every non-empty subset of the names in upper/lower/mixed case, with an absent name, and only an absent name; chains "
                     "cas>dsk>cas and dsk>cas>dsk; --to_bin on 1- and 2-file sources".format([C.brief(f) for f in FILES]),
         "bound": "single conversions and chains of two",
